@@ -78,6 +78,14 @@ func securityFor(r *Run, carrier string, cfg *WorldCfg) {
 		cfg.ServerCert = "good"
 		if c.Chance(1, 2, "tls-verify") && StartTLSVerifies {
 			cfg.ClientCA = "good"
+			if CarrierIsDNS(carrier) {
+				cfg.ServerCert = "good-domain"
+			}
+			if carrier == "unix" || carrier == "stdio" {
+				// no host name to verify on these carriers
+				cfg.ClientCA = ""
+				cfg.ClientInsecure = true
+			}
 		} else {
 			cfg.ClientInsecure = true
 		}
@@ -87,7 +95,7 @@ func securityFor(r *Run, carrier string, cfg *WorldCfg) {
 // StartTLSVerifies says whether worlds other than C05's may rely on
 // certificate verification succeeding over StartTLS (see known finding
 // C05/starttls-servername; C05 itself always exercises it).
-var StartTLSVerifies = false
+var StartTLSVerifies = true
 
 func scenarioC01(r *Run) {
 	c := r.Ch
